@@ -165,12 +165,31 @@ pub mod payload {
         Ok(n)
     }
 
+    /// Upper bound on the memory reserved ahead of the data actually read,
+    /// when decoding a payload.
+    const DECODE_STEP: usize = wire::Size::MAX as usize + 1;
+
     /// Decode varint-prefixed data payload.
+    ///
+    /// The declared payload size comes from the remote peer and can be anything
+    /// up to [`VarInt::MAX`], so it must not be used to size an allocation.
+    /// Instead, the buffer grows as the data is read, at most `DECODE_STEP`
+    /// bytes at a time.
     pub fn decode<R: io::Read + ?Sized>(reader: &mut R) -> Result<Vec<u8>, wire::Error> {
-        let size = VarInt::decode(reader)?;
-        let mut data = vec![0; *size as usize];
+        let size = usize::try_from(*VarInt::decode(reader)?)
+            .map_err(|e| io::Error::new(io::ErrorKind::InvalidData, e))?;
+        // Nb. Payloads up to `DECODE_STEP` bytes are read in one go.
+        let mut data = vec![0; size.min(DECODE_STEP)];
         reader.read_exact(&mut data[..])?;
 
+        while data.len() < size {
+            let len = data.len();
+            let step = (size - len).min(DECODE_STEP);
+
+            data.reserve_exact(step);
+            data.resize(len + step, 0);
+            reader.read_exact(&mut data[len..])?;
+        }
         Ok(data)
     }
 }
@@ -219,6 +238,40 @@ mod test {
         let decoded: VarInt = wire::deserialize(&encoded).unwrap();
 
         assert_eq!(decoded, input);
+    }
+
+    #[test]
+    fn test_payload_encode_decode() {
+        for len in [0, 1, 63, 64, 65535, 65536, 65537, 200_000] {
+            let data = (0..len).map(|i| i as u8).collect::<Vec<_>>();
+            let mut buf = Vec::new();
+            let n = payload::encode(&data, &mut buf).unwrap();
+
+            assert_eq!(n, buf.len());
+            assert_eq!(payload::decode(&mut io::Cursor::new(&buf)).unwrap(), data);
+
+            // With a byte missing, we hit the end of the input.
+            buf.pop();
+            if len > 0 {
+                assert!(payload::decode(&mut io::Cursor::new(&buf))
+                    .unwrap_err()
+                    .is_eof());
+            }
+        }
+    }
+
+    #[test]
+    fn test_payload_decode_untrusted_size() {
+        // The declared size is not backed by any data: this must simply fail,
+        // and not attempt to allocate the declared size.
+        for size in [1 << 32, 1 << 48, *VarInt::MAX] {
+            let mut buf = wire::serialize(&VarInt(size));
+            buf.extend([1, 2, 3]);
+
+            assert!(payload::decode(&mut io::Cursor::new(&buf))
+                .unwrap_err()
+                .is_eof());
+        }
     }
 
     #[test]
